@@ -89,8 +89,15 @@ func genCase(r *h.Rand, emit func([]string)) {
 			t := pickT(r, p.sgd, p.ts)
 			p.ts = append(p.ts, t)
 			ops = append(ops, m.Fmt("csg %s %s %d", p.db, p.rp, t))
-		case k < 8:
+		case k < 7:
 			ops = append(ops, "restart")
+		case k < 8:
+			// change the shard group duration: later groups are no longer aligned with the existing ones
+			p.sgd = h.Pick(r, durations)
+			if r.Chance(0.5) && p.sgd > 3 {
+				p.sgd = p.sgd/2 + r.Range(0, p.sgd/3)
+			}
+			ops = append(ops, m.Fmt("sgd %s %s %d", p.db, p.rp, p.sgd))
 		case k < 9:
 			ops = append(ops, m.Fmt("dump %s %s", p.db, p.rp))
 		case k < 10 && len(p.ts) > 0:
